@@ -96,6 +96,8 @@ def expected_round(cfg, consumer):
 def path_of(cfg):
     if cfg['entry'] == 'parmap':
         return 'parmap'
+    if cfg['entry'] == 'cache_threads':
+        return 'threads-on-' + cfg.get('kind', 'cache')
     return 'prefetch-single' if (cfg['w'] == 1 and cfg.get('backend', 't') == 't') else 'prefetch-pool'
 
 
@@ -212,6 +214,22 @@ def oracle_profile(cfg, ex):
                 return [('wrong-hits', f'prefetch stage [hits, failed] = {top}; {p} examples and one failure were fetched')]
             if rest and (rest[0][1] != 1 or not (p + 1 <= rest[0][0] <= n)):
                 return [('wrong-failed-hits', f'mapped stage [hits, failed] = {rest[0]}; exactly one application failed')]
+    return []
+
+
+def oracle_isolated(cfg, ex):
+    """C09 under concurrency: whatever other threads did to the examples they were handed, every later read
+    returns the pristine example."""
+    prob = sched_problem(ex)
+    if prob:
+        return [(prob[0], prob[1])]
+    for rec in ex.rounds:
+        if rec['exc'] is not None:
+            return [(f'read-raises:{rec["exc"]}', 'reading the cached example back raised')]
+        if not all(rec['delivered']):
+            return [('stored-data-changed-by-another-thread',
+                     f'after {cfg["w"]} threads fetched and mutated example {cfg.get("index", 0)} concurrently, reads by '
+                     f'[+i, -i, key, iteration, copy] equal the pristine example: {rec["delivered"]}; got {rec.get("values")}')]
     return []
 
 
